@@ -6,7 +6,7 @@ use crate::core::{Lane, Scenario, Stats, Tier, Violation};
 use crate::ops::{check_random_valid, compare, Out, TOp};
 use crate::shrink::shrink_top;
 use serde::{Deserialize, Serialize};
-use std::collections::BTreeMap;
+use std::collections::{BTreeMap, BTreeSet};
 use vmodel::dg::Dg;
 use vmodel::gen::{draw_density, near_semicomplete, random_dg, random_dg_on, random_vertex_set};
 use vmodel::rng::{digest, Rng};
@@ -130,8 +130,25 @@ pub fn draw_map_pair(rng: &mut Rng, max: usize) -> (Dg, Dg) {
     }
     let n1 = draw_order_tail(rng, max);
     let v1 = random_vertex_set(rng, n1, 3 * max);
-    let v2 = match rng.below(6) {
+    let v2 = match rng.below(7) {
         0 => v1.clone(),
+        6 => {
+            // the key ranges *touch*: exactly one shared vertex, the largest of one operand and the smallest
+            // of the other (between "disjoint" and "overlapping"); both operands may be large
+            let n2 = draw_order_tail(rng, max).max(2);
+            let top = *v1.iter().max().unwrap();
+            if top < usize::MAX - 3 * n2 {
+                let mut v: BTreeSet<usize> = std::iter::once(top).collect();
+                let mut x = top;
+                while v.len() < n2 {
+                    x += 1 + rng.below(2);
+                    let _ = v.insert(x);
+                }
+                v
+            } else {
+                v1.clone()
+            }
+        }
         1 => {
             // disjoint block above (below, when the ids are at the top of the range)
             let n2 = draw_order(rng, max);
@@ -167,8 +184,17 @@ pub fn draw_map_pair(rng: &mut Rng, max: usize) -> (Dg, Dg) {
         p1 = p1.min(3);
         p2 = p2.min(3);
     }
-    let d = random_dg_on(rng, &v1, p1);
-    let e = random_dg_on(rng, &v2, p2);
+    let mut d = random_dg_on(rng, &v1, p1);
+    let mut e = random_dg_on(rng, &v2, p2);
+    if v1.iter().max() == v2.iter().min() && v1.len() >= 2 && v2.len() >= 2 {
+        // touching ranges: the shared vertex gets out-arcs in both operands, so that losing either row shows
+        let top = *v1.iter().max().unwrap();
+        let _ = d.a.insert((top, *v1.iter().next().unwrap()));
+        let _ = e.a.insert((top, *v2.iter().next_back().unwrap()));
+        if rng.chance(1, 2) {
+            return (e, d);
+        }
+    }
     (d, e)
 }
 
@@ -216,9 +242,9 @@ pub fn draw_top(rng: &mut Rng, tier: Tier, kind: usize) -> TOp {
         }
         1 => TOp::ListComplete { order: draw_order_tail(rng, max).min(400) },
         2 => TOp::ListDegreeSequence { d: draw_dg(rng, max) },
-        3 if rng.chance(1, 250) => {
-            // giant and dense: one flag access per vertex pair, ~10^5..10^6 scheduling points
-            let order = *rng.pick(&[513, 769, 1025, 1025, 1030, 1100]);
+        3 if rng.chance(1, 120) => {
+            // large and dense: one flag access per vertex pair, 3*10^4..10^6 scheduling points
+            let order = *rng.pick(&[256, 257, 264, 288, 320, 384, 513, 769, 1025, 1025, 1030, 1100]);
             TOp::ListIsSemicompleteDense { order, seed: rng.next_u64() }
         }
         3 => {
@@ -271,6 +297,12 @@ pub fn draw_seed(rng: &mut Rng) -> u64 {
             // boundary of the seed space: the first draw of worker `tid` is exactly 0.0, or the largest
             // value next_f64() can take (1 - 2^-52), or exactly 0.5, or the smallest positive value
             let tid = rng.below(4) as u64;
+            if rng.chance(1, 3) {
+                // ... or the whole first output word is a boundary value of the integer reductions
+                // (draw % u, draw & 1): 0, 1, 2, 3, 2^32, 2^63, MAX - 1, MAX
+                let out = *rng.pick(&[0, 1, 1, 2, 3, 1 << 32, 1 << 63, u64::MAX - 1, u64::MAX]);
+                return vmodel::gen::seed_with_first_output(out).wrapping_sub(tid);
+            }
             let low52 = *rng.pick(&[0, 0, (1u64 << 52) - 1, (1u64 << 52) - 1, 1 << 51, 1]);
             vmodel::gen::seed_with_first_draw(low52, rng.next_u64()).wrapping_sub(tid)
         }
